@@ -9,6 +9,8 @@
 #include <netinet/in.h>
 #include <netinet/tcp.h>
 #include <poll.h>
+#include <pthread.h>
+#include <signal.h>
 #include <stdio.h>
 #include <stdlib.h>
 #include <string.h>
@@ -668,20 +670,51 @@ choose_len(Conn *c, int side, size_t maxn, bool wr)
 	return n;
 }
 
+static bool g_sigpipe_fatal = true;
+extern "C" void simnet_sigpipe_fatal(int on) { g_sigpipe_fatal = on != 0; }
 // ------------------------------------------------------------ stream io ---
+// EPIPE on a stream socket comes with SIGPIPE unless the call said MSG_NOSIGNAL (only send/sendmsg can), the
+// calling thread has the signal blocked, or the process ignores it.  The threads are real, so their real signal
+// mask is what the library set up (nng blocks SIGPIPE in its own threads; an application thread has not).
+// A SIGPIPE that would be delivered kills the process: that is a crash caused by the peer (property C11).
+static void
+epipe(bool nosignal, const char *call)
+{
+	errno = EPIPE;
+	sim_probe(nosignal ? "epipe_nosignal" : "epipe_plain_write");
+	if (nosignal || !sim_active())
+		return;
+	sigset_t cur;
+	struct sigaction sa;
+	if (pthread_sigmask(SIG_SETMASK, NULL, &cur) != 0 || sigismember(&cur, SIGPIPE)) {
+		sim_probe("epipe_sigpipe_blocked");
+		return;
+	}
+	// (the disposition of the harness process itself - it ignores SIGPIPE for its own result pipe - is not the
+	// modelled application's: nothing in nng's documentation asks an application to ignore SIGPIPE)
+	(void) sa;
+	sim_probe("sigpipe_would_kill");
+	if (!g_sigpipe_fatal)
+		return;
+	sim_violation("C11", "sigpipe",
+	    "%s on a connection whose peer has gone raises SIGPIPE in a thread that has not blocked it (no MSG_NOSIGNAL): "
+	    "the process would be killed by its peer's disconnect",
+	    call);
+}
+
 static ssize_t
-stream_write(Sock *s, const struct iovec *iov, int niov)
+stream_write(Sock *s, const struct iovec *iov, int niov, bool nosignal = true, const char *call = "write")
 {
 	if (s->state != SS_CONNECTED) {
 		errno = s->state == SS_CONNECTING ? EAGAIN : ENOTCONN;
 		if (s->state != SS_CONNECTING)
-			errno = EPIPE;
+			epipe(nosignal, call);
 		return -1;
 	}
 	Conn *c    = s->conn;
 	int   side = s->side;
 	if (c->wr_shut[side]) {
-		errno = EPIPE;
+		epipe(nosignal, call);
 		return -1;
 	}
 	if (c->h[side].rst) {
@@ -689,7 +722,7 @@ stream_write(Sock *s, const struct iovec *iov, int niov)
 		return -1;
 	}
 	if (c->closed[1 - side]) {
-		errno = EPIPE;
+		epipe(nosignal, call);
 		return -1;
 	}
 	size_t total = 0;
@@ -1042,7 +1075,7 @@ __wrap_write(int fd, const void *buf, size_t n)
 		Sock *s = (Sock *) e->obj;
 		if (maybe_eintr())
 			return -1;
-		return stream_write(s, &iov, 1);
+		return stream_write(s, &iov, 1, false, "write()");
 	}
 	default:
 		errno = EINVAL;
@@ -1086,7 +1119,7 @@ __wrap_writev(int fd, const struct iovec *iov, int niov)
 	}
 	if (maybe_eintr())
 		return -1;
-	return stream_write((Sock *) ent(fd)->obj, iov, niov);
+	return stream_write((Sock *) ent(fd)->obj, iov, niov, false, "writev()");
 }
 
 static ssize_t dgram_send(Sock *s, const struct msghdr *mh);
@@ -1112,7 +1145,42 @@ __wrap_sendmsg(int fd, const struct msghdr *mh, int flags)
 		return dgram_send(s, mh);
 	if (maybe_eintr())
 		return -1;
-	return stream_write(s, mh->msg_iov, (int) mh->msg_iovlen);
+	return stream_write(s, mh->msg_iov, (int) mh->msg_iovlen, (flags & MSG_NOSIGNAL) != 0, "sendmsg() without MSG_NOSIGNAL");
+}
+
+ssize_t __wrap_recvmsg(int fd, struct msghdr *mh, int flags);
+// send/recv: the library does not use them today; a change that does must still meet the simulated kernel
+extern "C" ssize_t __real_send(int, const void *, size_t, int);
+extern "C" ssize_t __real_recv(int, void *, size_t, int);
+extern "C" ssize_t
+__wrap_send(int fd, const void *buf, size_t n, int flags)
+{
+	if (!sim_active() || !in_sim_range(fd))
+		return __real_send(fd, buf, n, flags);
+	struct iovec  iov = { (void *) buf, n };
+	struct msghdr mh;
+	memset(&mh, 0, sizeof(mh));
+	mh.msg_iov    = &iov;
+	mh.msg_iovlen = 1;
+	return __wrap_sendmsg(fd, &mh, flags);
+}
+
+extern "C" ssize_t
+__wrap_recv(int fd, void *buf, size_t n, int flags)
+{
+	if (!sim_active() || !in_sim_range(fd))
+		return __real_recv(fd, buf, n, flags);
+	if ((flags & ~(MSG_DONTWAIT | MSG_NOSIGNAL)) != 0) {
+		sim_probe("recv_flags_unsupported");
+		errno = EOPNOTSUPP;
+		return -1;
+	}
+	struct iovec  iov = { buf, n };
+	struct msghdr mh;
+	memset(&mh, 0, sizeof(mh));
+	mh.msg_iov    = &iov;
+	mh.msg_iovlen = 1;
+	return __wrap_recvmsg(fd, &mh, flags);
 }
 
 ssize_t
